@@ -725,36 +725,58 @@ def c16(ctx):
     with open(spine, 'w') as f:
         f.writelines(json.dumps(r) + '\n' for r in spinerecs)
     nsmall = len(recs)
-    runs = [(trace, recs, nt, calls) for (nt, calls) in configs] + [(big, bigrecs, 2, 1), (spine, spinerecs, 2, 1)]
-    for (trace, recs, nt, calls) in runs:
+    # the deep / long programs are read one after the other when TLC starts (they are constants of the model):
+    # cut into pieces of 8 programs, the pieces run side by side
+    runs = [(trace, recs, nt, calls, '') for (nt, calls) in configs] + [(big, bigrecs, 2, 1, '_big')]
+    for k in range(0, len(spinerecs), 8):
+        part = '%s/c16spine_%d.ndjson' % (ctx.work, k // 8)
+        with open(part, 'w') as f:
+            f.writelines(json.dumps(r) + '\n' for r in spinerecs[k:k + 8])
+        runs.append((part, spinerecs[k:k + 8], 2, 1, '_spine%d' % (k // 8)))
+
+    def run_one(job):
+        (trace, recs, nt, calls, suffix) = job
         text = ('CONSTANT NThreads = %d\nCONSTANT Calls = %d\nSPECIFICATION Spec\nINVARIANT InvNoBadRelease\nINVARIANT InvWholeRecords\n'
                 'INVARIANT InvPrints\nPROPERTY Live\nCHECK_DEADLOCK TRUE\n') % (nt, calls)
-        name = 'c16scan_%dx%d%s' % (nt, calls, '_big' if trace == big else '_spine' if trace == spine else '')
-        cmdl = ctx.t.tlc_cmd(name, 'MC_Scan', text, workers=16)
+        name = 'c16scan_%dx%d%s' % (nt, calls, suffix)
+        cmdl = ctx.t.tlc_cmd(name, 'MC_Scan', text, workers=16 if not suffix.startswith('_spine') else 4)
         env = dict(os.environ, TRACE=trace)
         t0 = __import__('time').time()
         try:
-            p = subprocess.run(cmdl, cwd=ctx.t.SPEC, env=env, capture_output=True, text=True, timeout=pick(ctx, 900, 6000))
+            p = subprocess.run(cmdl, cwd=ctx.t.SPEC, env=env, capture_output=True, text=True, timeout=pick(ctx, 1500, 6000))
         except subprocess.TimeoutExpired:
-            raise ctx.t.ToolError('TLC timeout in ' + name)
+            return {'error': 'TLC timeout in ' + name}
         out = p.stdout
         st = ctx.t.parse_tlc_lines(out.split('\n'))
         st['wall_s'] = __import__('time').time() - t0
         st['cmd'] = ' '.join(cmdl)
-        acc.add_stage('%s: %d programs, %d threads x %d policy calls, all interleavings' % (name, len(recs), nt, calls), st, len(recs),
-                      [{'tree': recs[0]['t'], 'program': ctx.t.text_of(recs[0]['c']['renders'][0]['text'])[:300]}])
-        bad = None
+        res = {'name': name, 'st': st, 'recs': recs, 'nt': nt, 'calls': calls, 'bad': None, 'error': None}
         if 'is violated' in out or 'Deadlock reached' in out or 'Temporal properties were violated' in out:
             m = re.search(r'Invariant (\w+) is violated', out)
             kind = {'InvWholeRecords': 'torn-or-mixed-records', 'InvNoBadRelease': 'release-of-unheld-mutex', 'InvPrints': 'program-does-not-print'}.get(m.group(1), 'invariant') if m else ('deadlock' if 'Deadlock reached' in out else 'no-progress')
             mp = re.search(r'vProg = (\d+)', out)
             pidx = int(mp.group(1)) if mp else 0
             beh = out[out.find('The behavior up to this point'):][:6000]
-            bad = {'kinds': [kind], 'tree': recs[pidx - 1]['t'] if pidx else None, 'threads': nt, 'calls': calls, 'schedule': beh,
-                   'text': ctx.t.text_of(recs[pidx - 1]['c']['renders'][0]['text']) if pidx else '', 'stage': name}
-            acc.failures.append(bad)
+            res['bad'] = {'kinds': [kind], 'tree': recs[pidx - 1]['t'] if pidx else None, 'threads': nt, 'calls': calls, 'schedule': beh,
+                          'text': ctx.t.text_of(recs[pidx - 1]['c']['renders'][0]['text']) if pidx else '', 'stage': name}
         elif st['errors']:
-            raise ctx.t.ToolError('TLC reported: ' + ' | '.join(st['errors'][:3]))
+            res['error'] = 'TLC reported: ' + ' | '.join(st['errors'][:3])
+        return res
+
+    results = []
+    for job in runs:
+        if not job[4].startswith('_spine'):
+            results.append(run_one(job))
+    from concurrent.futures import ThreadPoolExecutor
+    with ThreadPoolExecutor(max_workers=4) as ex:
+        results.extend(ex.map(run_one, [j for j in runs if j[4].startswith('_spine')]))
+    for res in results:
+        if res.get('error') and not res.get('bad'):
+            raise ctx.t.ToolError(res['error'])
+        acc.add_stage('%s: %d programs, %d threads x %d policy calls, all interleavings' % (res['name'], len(res['recs']), res['nt'], res['calls']), res['st'], len(res['recs']),
+                      [{'tree': res['recs'][0]['t'] if len(json.dumps(res['recs'][0]['t'])) < 2000 else '(deep tree)', 'program': ctx.t.text_of(res['recs'][0]['c']['renders'][0]['text'])[:300]}])
+        if res['bad']:
+            acc.failures.append(res['bad'])
     acc.distinct = nsmall + 2 + len(spinerecs)
     acc.programs = nsmall + 2 + len(spinerecs)
     return tv_result(acc, 'AND chains of 1..%d printing actions (9 kinds: stdout/file x newline/NUL/format) plus the implicit print, plus two programs with 130 matchers in front of two printers (more than 255 generated identifiers), plus rule lists and AND chains of 48..240 members whose first action alone decides the output mode, and formats of 20..129 (thorough: ..300) elements; for each recorded program the atomic steps of a policy call (lock, write, unlock) are extracted from the real text by SchemeEval; TLC explores every interleaving of %s; checked in every state: no release of an unheld mutex; in every terminal state: ports split into whole records (framed: complete frames with the emitted multiset; plain: concatenation of whole critical-section records); no deadlock; <>AllDone under weak fairness' % (pick(ctx, 2, 3), ', '.join('%d threads x %d calls' % c for c in configs)),
